@@ -29,7 +29,7 @@ def Variants(prog, rng, limit):
     v = prog
     # structural rewrites change paths: apply annotations only, then rewrites
     for kind, site in sites:
-      if kind != 'in_as_alternatives':
+      if kind not in ('in_as_alternatives', 'eq_single_infix_lhs'):
         v = meta.ApplyForm(v, kind, site, rng)
     out.append(('all_sites', v))
   for name, fn in (('rules_as_disjunction', meta.MergeRulesAsDisjunction),
